@@ -137,6 +137,10 @@ class Merger(object):
         """
         spike_clusters_l = _load_multiple_files('spike_clusters.npy', self.subdirs)
         spike_templates_l = _load_multiple_files('spike_templates.npy', self.subdirs)
+        # The merged templates.npy stacks all templates of every probe, used or not.
+        n_templates_l = [
+            np.load(str(subdir / 'templates.npy'), mmap_mode='r').shape[0]
+            for subdir in self.subdirs]
         self.cluster_offsets = []
         self.template_offsets = []
         cluster_probes_l = []
@@ -145,7 +149,7 @@ class Merger(object):
         for i, (subdir, sc, st) in enumerate(
                 zip(self.subdirs, spike_clusters_l, spike_templates_l)):
             n_clu = np.max(sc) + 1
-            n_tmp = np.max(st) + 1
+            n_tmp = n_templates_l[i]
             sc += coffset
             st += toffset
             self.cluster_offsets.append(coffset)
